@@ -56,8 +56,33 @@ def direction(vseed, shape, stream=1):
     u = uniforms(vseed, n, stream)
     v = 2 * u - 1
     v = onp.where(onp.abs(v) < 0.1, onp.where(v >= 0, 0.1 + onp.abs(v), -0.1 - onp.abs(v)), v)
-    return v.reshape(shape)
+    return relayout(v.reshape(shape), layout_key(vseed, stream))
 
 
 def cdirection(vseed, shape, stream=1):
-    return direction(vseed, shape, stream) + 1j * direction(vseed, shape, stream + 101)
+    return relayout(direction(vseed, shape, stream) + 1j * direction(vseed, shape, stream + 101), layout_key(vseed, stream + 50))
+
+
+def layout_key(vseed, stream, idx=0):
+    """0..7 from the value seed (0 for vseed 0, so shrunk cases keep plain C-contiguous arrays)."""
+    if vseed == 0:
+        return 0
+    return int(uniforms(vseed, 1, 7919 + 31 * stream + idx)[0] * 8)
+
+
+def relayout(a, key):
+    """The same values and shape in another memory layout (keys 0-3: unchanged).  Derivatives are functions of values, never of
+    strides; rules that reshape or accumulate in place are the ones that can tell the difference."""
+    if not isinstance(a, onp.ndarray) or a.ndim == 0 or a.size == 0 or key < 4:
+        return a
+    if key == 4 and a.ndim >= 2:
+        return onp.asfortranarray(a)
+    if key == 5:  # every other element of a buffer twice as long (non-contiguous view)
+        big = onp.zeros(a.shape[:-1] + (2 * a.shape[-1],), dtype=a.dtype)
+        big[..., ::2] = a
+        return big[..., ::2]
+    if key == 6:  # negative stride along the first axis
+        return onp.ascontiguousarray(a[::-1])[::-1]
+    if key == 7 and a.ndim >= 2:  # last two axes stored transposed (not contiguous in either order for rank > 2)
+        return onp.swapaxes(onp.ascontiguousarray(onp.swapaxes(a, -1, -2)), -1, -2)
+    return a
